@@ -1348,6 +1348,22 @@ func (i valueImporter) importDictionaryValue(
 		if err != nil {
 			return nil, err
 		}
+
+		// The keys are hashed when the dictionary is created below, which happens before
+		// the conformance of the whole argument is checked. Ensure the key has the expected type,
+		// and is well-formed, e.g. an enum has a raw value.
+		if keyType != nil &&
+			!interpreter.IsSubTypeOfSemaType(inter, key.StaticType(inter), keyType) {
+
+			return nil, &MalformedValueError{
+				ExpectedType: keyType,
+			}
+		}
+
+		if !key.ConformsToStaticType(inter, interpreter.TypeConformanceResults{}) {
+			return nil, errors.NewDefaultUserError("cannot import dictionary: malformed key")
+		}
+
 		keysAndValues[pairIndex*2] = key
 
 		value, err := i.importValue(pair.Value, valueType)
